@@ -5,7 +5,13 @@ from props.c01 import _cfg
 TRUSTED = [
     "SHA-256 enters the DRBG model and spec as the executable FIPS 180-4 definition of Spec/Sha256.lean; its agreement with md_map_sh256 is "
     "checked by the md_map lines of this stream and by C14",
-    "modelled, not verified: bn_mod inside bn_rand_mod (C09), little-endian host byte order of the digit array in bn_rand",
+    "modelled, not verified: bn_mod inside bn_rand_mod (C09: the model takes the mathematical residue); little-endian host byte order of "
+    "the digit array in bn_rand / fp_rand / fb_rand (digitOf reads w/8 little-endian bytes per digit: checked per line, not derived from C)",
+    "class A here (Model/RandInt.lean proved in Props/C15 for every byte source, state and request, executed per line): bn_rand, "
+    "bn_rand_mod, fp_rand, fb_rand. The state after bn_rand / fp_rand / fb_rand is observed through the next 16 generator bytes",
+    "class C: ep_rand / eb_rand / ed_rand / pc *_rand (bn_rand_mod + fixed-base multiplication, not composed here); rand_init's entropy "
+    "source; fp_rand's loop is exercised for at most one subtraction (every configured prime has the top bit of RLC_FP_BITS set; the "
+    "theorem covers any number of iterations)",
 ]
 ASSUMPTIONS = [
     "fewer than 2^31 - 256 generate calls between reseeds (ctx->counter is an int; SP 800-90A allows 2^48)",
@@ -13,7 +19,9 @@ ASSUMPTIONS = [
 ]
 RULE = ("histories = one seed followed by 1..40 generate/reseed operations with request sizes from the boundary set "
         "{0,1,31,32,33,55,56,64,65,255,256,257,1000,4096,65535,65536,65537} and random sizes; non-trivial = distinct history with at "
-        "least one non-empty generate")
+        "least one non-empty generate; bn_rand_st: every bit length in {0,1,2,7,8,9,w-1,w,w+1,2w-1,2w,2w+1,255..257,cap*w-w..cap*w+w+1} "
+        "with both signs plus random lengths; fp_rand: 12 seeds for every prime identifier the build selects (base: 256-bit, p255: 255-bit "
+        "with the top-digit mask); fb_rand: 40 seeds under the configured binary field")
 
 SIZES = [0, 1, 31, 32, 33, 55, 56, 64, 65, 255, 256, 257, 1000, 4096]
 BIG = [65535, 65536, 65537, 70000]
@@ -83,6 +91,51 @@ def gen_lines(rng, w, cap, tier):
         k = rng.choice([2, 3, 8, 63, 64, 65, 128, 255, 256, 257, 1 + rng.below(cap * w - 50)])
         b = rng.choice([2, 2, 3, 4, 5, 7, 1 << k, (1 << k) + 1, (1 << k) - 1, rng.bits(k) | (1 << (k - 1)), 2 + rng.below(14)])
         out.append("bn_rand_mod %s %x" % (rng.bytes(8).hex(), max(b, 2)))
+    # bn_rand with the state after the call shown (next 16 bytes): every branch of the model — zero bits, below one digit, exact
+    # multiples of the digit size (no mask), one over, the largest request that fits, the first that does not, both signs
+    edge = [0, 1, 2, 7, 8, 9, w - 1, w, w + 1, 2 * w - 1, 2 * w, 2 * w + 1, 255, 256, 257, cap * w - w, cap * w - 1, cap * w,
+            cap * w + 1, cap * w + w, cap * w + w + 1]
+    for bits in edge:
+        for sign in (0, 1):
+            out.append("bn_rand_st %s %d %d" % (rng.bytes(1 + rng.below(16)).hex(), sign, bits))
+    for _ in range(120 if tier == "quick" else 3000):
+        bits = rng.choice([rng.below(w + 1), w * (1 + rng.below(cap)), w * rng.below(cap) + 1 + rng.below(w - 1), rng.below(cap * w + 2 * w)])
+        out.append("bn_rand_st %s %d %d" % (rng.bytes(1 + rng.below(16)).hex(), rng.below(2), bits))
+    return out
+
+
+def fp_contexts(exe):
+    """(id, p, bits, digs) of every field parameter identifier the build supports (asked from the running library)"""
+    import subprocess
+    ids = list(range(1, 130))
+    out = subprocess.run([exe], input="".join("fp_rand_ctx %d\n" % i for i in ids), stdout=subprocess.PIPE,
+                         stderr=subprocess.DEVNULL, text=True, timeout=300).stdout.split("\n")
+    res = []
+    for i, l in zip(ids, out):
+        if l.startswith("p="):
+            kv = dict(t.split("=") for t in l.split())
+            res.append((i, kv["p"], int(kv["bits"]), int(kv["digs"])))
+    return res
+
+
+def fb_lines(rng, exe, tier):
+    """fb_rand under the binary field the build is configured for (RLC_FB_BITS is a compile-time constant; asked from the library)"""
+    import subprocess
+    l = subprocess.run([exe], input="fb_rand_ctx\n", stdout=subprocess.PIPE, stderr=subprocess.DEVNULL, text=True, timeout=60).stdout.strip()
+    if not l.startswith("bits="):
+        return []
+    kv = dict(t.split("=") for t in l.split())
+    return ["fb_rand %s %s %s" % (rng.bytes(1 + rng.below(16)).hex(), kv["bits"], kv["digs"]) for _ in range(40 if tier == "quick" else 1000)]
+
+
+def fp_lines(rng, ctxs, tier):
+    """fp_rand for every supported prime: primes far below 2^bits (the subtraction loop runs for a large share of the draws) and primes
+    just below 2^bits (it practically never runs)"""
+    out = []
+    per = 12 if tier == "quick" else 300
+    for (i, p, bits, digs) in ctxs:
+        for _ in range(per):
+            out.append("fp_rand %s %d %s %d %d" % (rng.bytes(1 + rng.below(16)).hex(), i, p, bits, digs))
     return out
 
 
@@ -97,9 +150,21 @@ def streams(ctx, scale=1):
     exe = ctx.oracle("base", defs=("ORACLE_MD",), sources=("oracle.c", "ops_bn.c", "ops_md.c"), tag="_md")
     hdr, kv = _cfg(exe)
     lines = ["cfg"] + CORPUS
+    fctx = fp_contexts(exe)
     for _ in range(scale):
         lines += gen_lines(ctx.rng, kv["w"], kv["size"], ctx.tier)
-    return [{"name": "drbg-base", "cfg": "base", "exe": exe, "lines": lines}]
+        lines += fp_lines(ctx.rng, fctx, ctx.tier)
+        lines += fb_lines(ctx.rng, exe, ctx.tier)
+    res = [{"name": "drbg-base", "cfg": "base", "exe": exe, "lines": lines}]
+    # a field whose bit length is not a multiple of the digit size (the top-digit mask of fp_rand)
+    exe2 = ctx.oracle("p255", defs=("ORACLE_MD",), sources=("oracle.c", "ops_bn.c", "ops_md.c"), tag="_md")
+    hdr2, kv2 = _cfg(exe2)
+    lines2 = ["cfg"]
+    fctx2 = fp_contexts(exe2)
+    for _ in range(scale):
+        lines2 += fp_lines(ctx.rng, fctx2, ctx.tier)
+    res.append({"name": "fprand-p255", "cfg": "p255", "exe": exe2, "lines": lines2})
+    return res
 
 
 def search_streams(ctx, mfail):
@@ -107,8 +172,9 @@ def search_streams(ctx, mfail):
 
 
 def replay_streams(ctx, rp):
-    exe = ctx.oracle("base", defs=("ORACLE_MD",), sources=("oracle.c", "ops_bn.c", "ops_md.c"), tag="_md")
-    return [{"name": "replay", "cfg": "base", "exe": exe, "lines": ["cfg"] + rp.get("op_lines", [])}]
+    cfg = rp.get("config", "base")
+    exe = ctx.oracle(cfg, defs=("ORACLE_MD",), sources=("oracle.c", "ops_bn.c", "ops_md.c"), tag="_md")
+    return [{"name": "replay", "cfg": cfg, "exe": exe, "lines": ["cfg"] + rp.get("op_lines", [])}]
 
 
 def nontrivial(r):
